@@ -51,6 +51,8 @@ type c08Keep struct {
 	gate      bool
 	maxParked int
 	parked    []chan struct{}
+	parkedSer []int // serial of each parked write (parallel to parked)
+	parkPrune bool  // C09 conc stream: park exactly the writes issued by pruneMemSegments, whether or not a save is running
 	inflight  int
 	inSave    bool
 	failFn    func(serial int, origin string, inSave bool) bool // called with mu held
@@ -131,6 +133,9 @@ func (k *c08Keep) releaseLocked(i int) {
 	}
 	close(k.parked[i])
 	k.parked = append(k.parked[:i], k.parked[i+1:]...)
+	if i < len(k.parkedSer) {
+		k.parkedSer = append(k.parkedSer[:i], k.parkedSer[i+1:]...)
+	}
 }
 
 func (k *c08Keep) PutB(p []byte) (string, int, error) {
@@ -150,9 +155,10 @@ func (k *c08Keep) PutB(p []byte) (string, int, error) {
 		k.nPutBg++
 	}
 	var ch chan struct{}
-	if k.gate && !inSave && k.maxParked > 0 {
+	if k.gate && k.maxParked > 0 && ((!k.parkPrune && !inSave) || (k.parkPrune && origin == "prune")) {
 		ch = make(chan struct{})
 		k.parked = append(k.parked, ch)
+		k.parkedSer = append(k.parkedSer, serial)
 		k.nParked++
 		for len(k.parked) > k.maxParked {
 			k.releaseLocked(0)
